@@ -3,7 +3,7 @@ use vstd::prelude::*;
 verus! {
 
 // ---------- stand-ins (assumed contracts on dependencies) ----------
-#[derive(Copy, Clone, PartialEq, Eq)]
+#[derive(Copy, Clone, PartialEq, Eq, Structural)]
 pub struct CrsqlSeq(pub u64);
 
 impl vstd::std_specs::ops::AddSpecImpl<u64> for CrsqlSeq {
@@ -172,6 +172,8 @@ impl<I> ChunkedChanges<I> {
                 self.iter.rest() == old(self).iter.rest().subrange(self.changes@.len() as int, old(self).iter.rest().len() as int),
                 increasing_within(old(self).iter.rest(), self.last_start_seq.0, self.last_seq.0),
                 self.changes@.len() > 0 ==> self.last_pushed_seq == self.changes@[self.changes@.len() - 1].seq,
+                self.changes@.len() > 0 ==> self.last_pushed_seq.0 <= self.last_seq.0,
+                forall|i: int| 0 <= i < self.changes@.len() ==> self.last_start_seq.0 <= (#[trigger] self.changes@[i]).seq.0 && self.changes@[i].seq.0 <= self.last_pushed_seq.0,
                 self.buffered_size as int + total_size(self.iter.rest()) <= usize::MAX,
             ensures
                 self.iter.rest().len() == 0,
@@ -190,20 +192,43 @@ impl<I> ChunkedChanges<I> {
                     self.last_pushed_seq = change.seq;
 
                     proof {
-                        assert(r0[0] == old(self).iter.rest()[n0]);
-                        assert(seq_of(old(self).iter.rest(), n0) == change.seq.0);
+                        let o = old(self).iter.rest();
+                        assert(r0 == o.subrange(n0, o.len() as int));
+                        assert(r0.len() > 0);
+                        assert(r0[0] == o[n0]);
+                        assert(r0[0] == Ok::<Change, SqlError>(change));
+                        assert(seq_of(o, n0) == change.seq.0);
+                        assert(seq_of(o, n0) == self.last_pushed_seq.0);
+                        assert(self.last_start_seq.0 <= seq_of(o, n0) <= self.last_seq.0);
                     }
                     self.buffered_size += change.estimated_byte_size();
 
+                    let ghost prev_changes = self.changes@;
                     self.changes.push(change);
+                    proof {
+                        let o = old(self).iter.rest();
+                        assert forall|i: int| 0 <= i < self.changes@.len() implies self.last_start_seq.0 <= (#[trigger] self.changes@[i]).seq.0 && self.changes@[i].seq.0 <= self.last_pushed_seq.0 by {
+                            if i < n0 {
+                                assert(self.changes@[i] == prev_changes[i]);
+                                assert(prev_changes[i] == o[i]->Ok_0);
+                                assert(seq_of(o, i) < seq_of(o, n0));
+                            }
+                        }
+                    }
 
                     if self.last_pushed_seq == self.last_seq {
                         // this was the last seq! break early
                         proof {
+                            let o = old(self).iter.rest();
                             let rr = self.iter.rest();
+                            assert(rr == r0.subrange(1, r0.len() as int));
+                            assert(r0 == o.subrange(n0, o.len() as int));
                             if rr.len() > 0 {
-                                assert(rr[0] == old(self).iter.rest()[n0 + 1]);
-                                assert(seq_of(old(self).iter.rest(), n0) < seq_of(old(self).iter.rest(), n0 + 1));
+                                assert(rr[0] == r0[1]);
+                                assert(r0[1] == o[n0 + 1]);
+                                assert(seq_of(o, n0) < seq_of(o, n0 + 1));
+                                assert(seq_of(o, n0 + 1) <= self.last_seq.0);
+                                assert(seq_of(o, n0) == self.last_seq.0);
                             }
                         }
                         break;
@@ -220,6 +245,26 @@ impl<I> ChunkedChanges<I> {
 
                         // prepare for next round! we're not done...
                         self.last_start_seq = self.last_pushed_seq + 1;
+                        proof {
+                            let o = old(self).iter.rest();
+                            let rr = self.iter.rest();
+                            assert(rr == r0.subrange(1, r0.len() as int));
+                            assert(r0 == o.subrange(n0, o.len() as int));
+                            assert(rr =~= o.subrange(n0 + 1, o.len() as int));
+                            assert(seq_of(o, n0) == self.last_pushed_seq.0);
+                            assert forall|i: int| 0 <= i < rr.len() implies self.last_start_seq.0 <= #[trigger] seq_of(rr, i) <= self.last_seq.0 by {
+                                assert(rr[i] == o[n0 + 1 + i]);
+                                assert(seq_of(o, n0) < seq_of(o, n0 + 1 + i));
+                                assert(seq_of(rr, i) == seq_of(o, n0 + 1 + i));
+                            }
+                            assert forall|i: int, j: int| 0 <= i < j < rr.len() implies #[trigger] seq_of(rr, i) < #[trigger] seq_of(rr, j) by {
+                                assert(rr[i] == o[n0 + 1 + i]);
+                                assert(rr[j] == o[n0 + 1 + j]);
+                                assert(seq_of(o, n0 + 1 + i) < seq_of(o, n0 + 1 + j));
+                            }
+                            assert(all_ok(rr));
+                            lemma_total_size_nonneg(rr);
+                        }
 
                         return Some(Ok((
                             drain_all(&mut self.changes),
